@@ -1,6 +1,8 @@
-(* Lemmas about the machine of Model/Run.v shared by C01, C02, C03, C05: what each step does
-   to the control part of the state (log, caught exceptions, cleanup stack, force flag, result
-   events), and the characterisation of a whole run by the declarative reading of Spec/Run.v. *)
+(* Lemmas about the machine of Model/Run.v shared by C01, C02, C03, C05: what each step does to
+   the state - the control part (log, caught exceptions, cleanup stack, force flag, inserted
+   handlers, result events) and the detail part (details dict, traceback counter, cells,
+   addOnException handlers and their calls), the latter as a fold over the detail events of
+   Spec/Run.v - and the characterisation of a whole run by the declarative reading of Spec/Run.v. *)
 From TT Require Import Lib.Base Gen.Handlers Model.Run Spec.Run.
 
 Arguments on_exception : simpl never.
@@ -13,55 +15,141 @@ Arguments exec_act : simpl never.
 Arguments run_cleanup : simpl never.
 Arguments run_user : simpl never.
 Arguments flatten : simpl never.
+Arguments nl_dict : simpl never.
+Arguments unique_name : simpl never.
+Arguments tb_label : simpl never.
 
 (* ------------------------------------------------------------------ *)
-(* steps that touch only details, cells, traceback counter             *)
-(* ------------------------------------------------------------------ *)
-Record quiet (s s' : st) : Prop := {
-  q_log : log s' = log s;
-  q_excs : excs s' = excs s;
-  q_stack : stack s' = stack s;
-  q_attrs : attrs s' = attrs s;
-  q_force : force s' = force s;
-  q_onexc : onexc s' = onexc s;
-  q_tr : tr s' = tr s }.
-
-Lemma quiet_refl s : quiet s s.
-Proof. constructor; reflexivity. Qed.
-Lemma quiet_trans a b c : quiet a b -> quiet b c -> quiet a c.
-Proof. intros [] []; constructor; congruence. Qed.
-
-Lemma quiet_fold {A} (f : st -> A -> st) :
-  (forall s a, quiet s (f s a)) -> forall l s, quiet s (fold_left f l s).
-Proof.
-  intros H l; induction l as [|a r IH]; intros s; simpl; [apply quiet_refl|].
-  eapply quiet_trans; [apply H | apply IH].
-Qed.
-
-Lemma quiet_add_detail n c s : quiet s (add_detail n c s).
-Proof. constructor; reflexivity. Qed.
-Lemma quiet_add_detail_unique n c s : quiet s (add_detail_unique n c s).
-Proof. apply quiet_add_detail. Qed.
-Lemma quiet_add_mismatch mm s : quiet s (add_mismatch mm s).
-Proof. unfold add_mismatch. apply quiet_fold. intros; apply quiet_add_detail_unique. Qed.
-Lemma quiet_gather src s : quiet s (gather src s).
-Proof. unfold gather. apply quiet_fold. intros; apply quiet_add_detail. Qed.
-Lemma quiet_report_traceback s : quiet s (report_traceback s).
-Proof.
-  unfold report_traceback. destruct (tb_label _ _ _ _) as [lab nxt].
-  eapply quiet_trans; [|apply quiet_add_detail]. constructor; reflexivity.
-Qed.
-
-(* ------------------------------------------------------------------ *)
-(* the result events other than handler calls                          *)
+(* the result events other than handler calls; the handler calls        *)
 (* ------------------------------------------------------------------ *)
 Definition is_call (e : tev) : bool := match e with THandler _ _ => false | _ => true end.
 Definition calls (t : list tev) : list tev := filter is_call t.
+Definition hcalls (t : list tev) : list (nat * cls) :=
+  flat_map (fun e => match e with THandler h c => [(h, c)] | _ => [] end) t.
 
 Lemma calls_app a b : calls (a ++ b) = calls a ++ calls b.
 Proof. apply filter_app. Qed.
+Lemma hcalls_app a b : hcalls (a ++ b) = hcalls a ++ hcalls b.
+Proof. apply flat_map_app. Qed.
 Lemma calls_handlers (f : nat -> tev) l : (forall h, is_call (f h) = false) -> calls (map f l) = [].
 Proof. intros H. induction l as [|x r IH]; simpl; [reflexivity|]. rewrite H. exact IH. Qed.
+Lemma hcalls_handlers c l : hcalls (map (fun h => THandler h c) l) = map (fun h => (h, c)) l.
+Proof. induction l as [|x r IH]; simpl; [reflexivity|]. now rewrite <- IH. Qed.
+
+(* ------------------------------------------------------------------ *)
+(* the detail part of the state and the model's reading of a detail event *)
+(* ------------------------------------------------------------------ *)
+Record dst := {
+  d_dets : details; d_tbgen : nat; d_cells : list (nat * nat); d_onexc : list nat; d_calls : list (nat * cls) }.
+Definition proj (s : st) : dst :=
+  {| d_dets := dets s; d_tbgen := tbgen s; d_cells := cells s; d_onexc := onexc s; d_calls := hcalls (tr s) |}.
+Definition dcell (loc : nat) (d : dst) : nat := match aget loc (d_cells d) with Some v => v | None => 0 end.
+Definition d_put (n : dname) (c : content) (d : dst) : dst :=
+  {| d_dets := dput n c (d_dets d); d_tbgen := d_tbgen d; d_cells := d_cells d; d_onexc := d_onexc d;
+     d_calls := d_calls d |}.
+Definition d_tb (d : dst) : dst :=
+  let '(lab, nxt) := tb_label (length (d_dets d)) (d_tbgen d) n_traceback (d_dets d) in
+  {| d_dets := dput lab CTb (d_dets d); d_tbgen := nxt; d_cells := d_cells d; d_onexc := d_onexc d;
+     d_calls := d_calls d |}.
+Definition papply (d : dst) (e : devent) : dst :=
+  match e with
+  | DUser n loc => d_put n (CLazy loc) d
+  | DSetCell loc v => {| d_dets := d_dets d; d_tbgen := d_tbgen d; d_cells := aput loc v (d_cells d);
+                         d_onexc := d_onexc d; d_calls := d_calls d |}
+  | DMis n loc => d_put (unique_name n (d_dets d)) (CLazy loc) d
+  | DStack => d_put (unique_name n_failed_expectation (d_dets d)) CStack d
+  | DFx n loc => d_put (unique_name n (d_dets d)) (CSnap (dcell loc d)) d
+  | DTb => d_tb d
+  | DReason r => d_put n_reason (CReason r) d
+  | DOnExc h => {| d_dets := d_dets d; d_tbgen := d_tbgen d; d_cells := d_cells d;
+                   d_onexc := d_onexc d ++ [h]; d_calls := d_calls d |}
+  | DExc c => let d1 := if no_traceback c then d else d_tb d in
+              {| d_dets := d_dets d1; d_tbgen := d_tbgen d1; d_cells := d_cells d1; d_onexc := d_onexc d1;
+                 d_calls := d_calls d1 ++ map (fun h => (h, c)) (d_onexc d1) |}
+  end.
+Definition prun (evs : list devent) (d : dst) : dst := fold_left papply evs d.
+Lemma prun_app a b d : prun (a ++ b) d = prun b (prun a d).
+Proof. apply fold_left_app. Qed.
+
+(* ------------------------------------------------------------------ *)
+(* steps that touch only the detail part                                *)
+(* ------------------------------------------------------------------ *)
+Record dstep (s s' : st) (evs : list devent) : Prop := {
+  ds_log : log s' = log s;
+  ds_excs : excs s' = excs s;
+  ds_stack : stack s' = stack s;
+  ds_attrs : attrs s' = attrs s;
+  ds_force : force s' = force s;
+  ds_uh : uh s' = uh s;
+  ds_calls : calls (tr s') = calls (tr s);
+  ds_det : proj s' = prun evs (proj s) }.
+
+Lemma dstep_refl s : dstep s s [].
+Proof. constructor; reflexivity. Qed.
+Lemma dstep_trans a b c e1 e2 : dstep a b e1 -> dstep b c e2 -> dstep a c (e1 ++ e2).
+Proof. intros [] []; constructor; try congruence. rewrite prun_app. congruence. Qed.
+Lemma dstep_eq s s' e e' : dstep s s' e -> e = e' -> dstep s s' e'.
+Proof. intros H ->. exact H. Qed.
+
+Lemma dstep_fold {A} (f : st -> A -> st) (ev : A -> list devent) :
+  (forall s a, dstep s (f s a) (ev a)) -> forall l s, dstep s (fold_left f l s) (flat_map ev l).
+Proof.
+  intros H l; induction l as [|a r IH]; intros s; simpl; [apply dstep_refl|].
+  eapply dstep_trans; [apply H | apply IH].
+Qed.
+Lemma flat_map_single {A B} (f : A -> B) l : flat_map (fun a => [f a]) l = map f l.
+Proof. induction l as [|x r IH]; simpl; [reflexivity|]. now rewrite IH. Qed.
+
+Lemma ds_user n loc s : dstep s (add_detail n (CLazy loc) s) [DUser n loc].
+Proof. constructor; reflexivity. Qed.
+Lemma ds_mis n loc s : dstep s (add_detail_unique n (CLazy loc) s) [DMis n loc].
+Proof. constructor; reflexivity. Qed.
+Lemma ds_stack' s : dstep s (add_detail_unique n_failed_expectation CStack s) [DStack].
+Proof. constructor; reflexivity. Qed.
+Lemma ds_reason r s : dstep s (add_detail n_reason (CReason r) s) [DReason r].
+Proof. constructor; reflexivity. Qed.
+Lemma ds_setcell loc v s : dstep s (set_cells (aput loc v (cells s)) s) [DSetCell loc v].
+Proof. constructor; reflexivity. Qed.
+Lemma ds_onexc h s : dstep s (set_onexc (onexc s ++ [h]) s) [DOnExc h].
+Proof. constructor; reflexivity. Qed.
+Lemma proj_report_traceback s : proj (report_traceback s) = d_tb (proj s).
+Proof.
+  unfold report_traceback, d_tb. cbn [proj d_dets d_tbgen]. destruct (tb_label _ _ _ _) as [lab nxt]. reflexivity.
+Qed.
+Lemma ds_tb s : dstep s (report_traceback s) [DTb].
+Proof.
+  constructor; try (unfold report_traceback; destruct (tb_label _ _ _ _); reflexivity).
+  apply proj_report_traceback.
+Qed.
+Lemma ds_mismatch mm s : dstep s (add_mismatch mm s) (mm_events mm).
+Proof.
+  unfold add_mismatch, mm_events. rewrite <- flat_map_single.
+  apply (dstep_fold (fun s nl => add_detail_unique (fst nl) (CLazy (snd nl)) s)). intros; apply ds_mis.
+Qed.
+
+Lemma fold_left_map {A B C} (f : A -> B -> A) (g : C -> B) l a :
+  fold_left f (map g l) a = fold_left (fun a c => f a (g c)) l a.
+Proof. revert a; induction l as [|x r IH]; intros a; simpl; [reflexivity | apply IH]. Qed.
+
+Lemma ds_gather fx s : dstep s (gather (fx_source fx) s) (fx_events fx).
+Proof.
+  unfold gather, fx_source, fx_events. rewrite fold_left_map, <- flat_map_single.
+  apply (dstep_fold (fun s nl => add_detail (unique_name (fst nl) (dets s)) (snapshot s (CLazy (snd nl))) s)).
+  intros; constructor; reflexivity.
+Qed.
+(* gathering details that were materialised when the cells were the same *)
+Lemma ds_gather_snap l : forall s s1,
+  cells s = cells s1 ->
+  dstep s (gather (map (fun nc => (fst nc, snapshot s1 (snd nc))) (map (fun nl => (fst nl, CLazy (snd nl))) l)) s)
+          (map (fun nl => DFx (fst nl) (snd nl)) l).
+Proof.
+  unfold gather. induction l as [|nl r IH]; intros s s1 Hc; cbn [map fold_left]; [apply dstep_refl|].
+  change (DFx (fst nl) (snd nl) :: map (fun nl0 => DFx (fst nl0) (snd nl0)) r)
+    with ([DFx (fst nl) (snd nl)] ++ map (fun nl0 => DFx (fst nl0) (snd nl0)) r).
+  eapply dstep_trans; [|apply IH; cbn [fst snd snapshot cells add_detail set_dets]; exact Hc].
+  cbn [fst snd snapshot]. constructor; try reflexivity.
+  unfold proj, prun, dcell, d_put, cell; simpl. rewrite Hc. reflexivity.
+Qed.
 
 (* ------------------------------------------------------------------ *)
 (* flatten never yields nothing (the repair of F3)                      *)
@@ -89,25 +177,24 @@ Proof.
   inversion IH as [|? ? Hx _]; subst. intro E. apply app_eq_nil in E. destruct E as [E _]. exact (Hx E).
 Qed.
 
-Lemma caught_nonempty r : caught r = [] <-> r = None.
-Proof.
-  destruct r as [e|]; simpl; split; intro H; try reflexivity; try discriminate.
-  exfalso; exact (flatten_nonempty e H).
-Qed.
-
 (* ------------------------------------------------------------------ *)
 (* _got_user_exception                                                  *)
 (* ------------------------------------------------------------------ *)
-Lemma on_exception_spec e s :
-  let s' := on_exception e s in
-  log s' = log s /\ excs s' = excs s /\ stack s' = stack s /\ attrs s' = attrs s /\ force s' = force s
-  /\ onexc s' = onexc s /\ calls (tr s') = calls (tr s).
+Lemma ds_on_exception e s : dstep s (on_exception e s) [DExc (cls_of e)].
 Proof.
   unfold on_exception.
-  assert (Q : quiet s (if no_traceback (cls_of e) then s else report_traceback s)).
-  { destruct (no_traceback _); [apply quiet_refl | apply quiet_report_traceback]. }
-  destruct Q as [Q1 Q2 Q3 Q4 Q5 Q6 Q7]. simpl. repeat split; try assumption.
-  rewrite calls_app, calls_handlers by reflexivity. rewrite app_nil_r. now rewrite Q7.
+  assert (Q : dstep s (if no_traceback (cls_of e) then s else report_traceback s)
+                      (if no_traceback (cls_of e) then [] else [DTb])).
+  { destruct (no_traceback _); [apply dstep_refl | apply ds_tb]. }
+  destruct Q as [Q1 Q2 Q3 Q4 Q5 Q6 Q7 Q8].
+  set (s1 := if no_traceback (cls_of e) then s else report_traceback s) in *.
+  constructor; cbn [log excs stack attrs force uh tr add_tr set_tr]; try assumption.
+  - rewrite calls_app, calls_handlers by reflexivity. now rewrite app_nil_r.
+  - unfold proj. cbn [dets tbgen cells onexc tr add_tr set_tr]. rewrite hcalls_app, hcalls_handlers.
+    cbn [prun fold_left papply].
+    assert (P1 : proj s1 = if no_traceback (cls_of e) then proj s else d_tb (proj s)).
+    { rewrite Q8. destruct (no_traceback (cls_of e)); reflexivity. }
+    rewrite <- P1. reflexivity.
 Qed.
 
 Definition got_step (s : st) (x : exc) : st :=
@@ -116,22 +203,26 @@ Definition got_step (s : st) (x : exc) : st :=
 Lemma got_exception_gen l : forall s,
   let s' := fold_left got_step l s in
   log s' = log s /\ excs s' = excs s ++ l /\ stack s' = stack s /\ attrs s' = attrs s /\ force s' = force s
-  /\ onexc s' = onexc s /\ calls (tr s') = calls (tr s).
+  /\ uh s' = uh s /\ calls (tr s') = calls (tr s)
+  /\ proj s' = prun (map (fun x => DExc (cls_of x)) l) (proj s).
 Proof.
-  induction l as [|x r IH]; intros s; cbn [fold_left].
+  induction l as [|x r IH]; intros s; cbn [fold_left map].
   - rewrite app_nil_r. repeat split.
   - specialize (IH (got_step s x)). cbv zeta in IH.
-    destruct IH as (I1 & I2 & I3 & I4 & I5 & I6 & I7).
-    destruct (on_exception_spec x s) as (O1 & O2 & O3 & O4 & O5 & O6 & O7).
-    cbv zeta. rewrite I1, I2, I3, I4, I5, I6, I7. unfold got_step; cbn [log excs stack attrs force onexc tr set_excs].
+    destruct IH as (I1 & I2 & I3 & I4 & I5 & I6 & I7 & I8).
+    destruct (ds_on_exception x s) as [O1 O2 O3 O4 O5 O6 O7 O8].
+    cbv zeta. rewrite I1, I2, I3, I4, I5, I6, I7, I8.
+    unfold got_step; cbn [log excs stack attrs force uh tr set_excs].
     repeat split; try assumption.
-    rewrite O2, <- app_assoc. reflexivity.
+    + rewrite O2, <- app_assoc. reflexivity.
+    + cbn [prun fold_left] in *. rewrite <- O8. reflexivity.
 Qed.
 
 Lemma got_exception_spec e s :
   let s' := got_exception e s in
   log s' = log s /\ excs s' = excs s ++ flatten e /\ stack s' = stack s /\ attrs s' = attrs s
-  /\ force s' = force s /\ onexc s' = onexc s /\ calls (tr s') = calls (tr s).
+  /\ force s' = force s /\ uh s' = uh s /\ calls (tr s') = calls (tr s)
+  /\ proj s' = prun (exc_events (Some e)) (proj s).
 Proof. apply got_exception_gen. Qed.
 
 (* ------------------------------------------------------------------ *)
@@ -160,9 +251,6 @@ Definition undo1 (a : list (nat * nat)) (k : cleanup) : list (nat * nat) :=
   end.
 Definition undo_all (stk : list cleanup) (a : list (nat * nat)) : list (nat * nat) := fold_left undo1 stk a.
 
-Lemma undo_all_app x y a : undo_all (x ++ y) a = undo_all y (undo_all x a).
-Proof. apply fold_left_app. Qed.
-
 (* ------------------------------------------------------------------ *)
 (* the cleanup stack read declaratively                                 *)
 (* ------------------------------------------------------------------ *)
@@ -188,50 +276,57 @@ Lemma act_size_cleanup t b : act_size (ACleanup t b) = S (acts_size b).
 Proof. reflexivity. Qed.
 
 (* ------------------------------------------------------------------ *)
-(* one step of user code on the control part of the state              *)
+(* one step of user code                                                *)
 (* ------------------------------------------------------------------ *)
-Record step (s s' : st) (lg : list lsh) (fc : bool) (new : list cleanup) : Prop := {
+Record step (s s' : st) (lg : list lsh) (fc : bool) (new : list cleanup)
+            (ins : list (cls * outcome)) (evs : list devent) : Prop := {
   st_log : map shape (log s') = map shape (log s) ++ lg;
   st_excs : excs s' = excs s;
   st_force : force s' = force s || fc;
   st_calls : calls (tr s') = calls (tr s);
   st_stack : stack s' = new ++ stack s;
-  st_attrs : undo_all (stack s') (attrs s') = undo_all (stack s) (attrs s) }.
+  st_attrs : undo_all (stack s') (attrs s') = undo_all (stack s) (attrs s);
+  st_uh : uh s' = rev ins ++ uh s;
+  st_det : proj s' = prun evs (proj s) }.
 
-Lemma step_refl s : step s s [] false [].
+Lemma step_refl s : step s s [] false [] [] [].
 Proof. constructor; simpl; rewrite ?app_nil_r, ?orb_false_r; reflexivity. Qed.
 
-Lemma step_trans a b c lg1 lg2 f1 f2 n1 n2 :
-  step a b lg1 f1 n1 -> step b c lg2 f2 n2 -> step a c (lg1 ++ lg2) (f1 || f2) (n2 ++ n1).
+Lemma step_trans a b c lg1 lg2 f1 f2 n1 n2 i1 i2 e1 e2 :
+  step a b lg1 f1 n1 i1 e1 -> step b c lg2 f2 n2 i2 e2 ->
+  step a c (lg1 ++ lg2) (f1 || f2) (n2 ++ n1) (i1 ++ i2) (e1 ++ e2).
 Proof.
-  intros [A1 A2 A3 A4 A5 A6] [B1 B2 B3 B4 B5 B6]. constructor.
+  intros [A1 A2 A3 A4 A5 A6 A7 A8] [B1 B2 B3 B4 B5 B6 B7 B8]. constructor.
   - rewrite B1, A1, app_assoc. reflexivity.
   - congruence.
   - rewrite B3, A3, orb_assoc. reflexivity.
   - congruence.
   - rewrite B5, A5, app_assoc. reflexivity.
   - congruence.
+  - rewrite B7, A7, rev_app_distr, app_assoc. reflexivity.
+  - rewrite prun_app. congruence.
 Qed.
 
-Lemma step_eq s s' lg fc new lg' fc' new' :
-  step s s' lg fc new -> lg = lg' -> fc = fc' -> new = new' -> step s s' lg' fc' new'.
-Proof. intros H -> -> ->. exact H. Qed.
+Lemma step_eq s s' lg fc new ins evs lg' fc' new' ins' evs' :
+  step s s' lg fc new ins evs -> lg = lg' -> fc = fc' -> new = new' -> ins = ins' -> evs = evs' ->
+  step s s' lg' fc' new' ins' evs'.
+Proof. intros H -> -> -> -> ->. exact H. Qed.
 Tactic Notation "step_chain" tactic(t) :=
   eapply step_eq; [t | try (simpl; rewrite ?app_nil_r, ?orb_false_r; reflexivity) ..].
 
-Lemma quiet_step s s' : quiet s s' -> step s s' [] false [].
+Lemma dstep_step s s' evs : dstep s s' evs -> step s s' [] false [] [] evs.
 Proof.
-  intros [Q1 Q2 Q3 Q4 Q5 Q6 Q7]. constructor; simpl; rewrite ?app_nil_r, ?orb_false_r; congruence.
+  intros [Q1 Q2 Q3 Q4 Q5 Q6 Q7 Q8]. constructor; simpl; rewrite ?app_nil_r, ?orb_false_r; congruence.
 Qed.
 
-Lemma step_log s l : step s (add_log l s) (map shape l) false [].
+Lemma step_log s l : step s (add_log l s) (map shape l) false [] [] [].
 Proof. constructor; simpl; rewrite ?orb_false_r, ?map_app; reflexivity. Qed.
 
 (* fixtures *)
 Lemma run_fx_cleanups_gen (l : list (nat * option exc)) : forall (s : st) (errs : list exc),
   let r := fold_left (fun (se : st * list exc) (c : nat * option exc) => (add_log [LTok (fst c)] (fst se),
                                    match snd c with Some e => snd se ++ [e] | None => snd se end)) l (s, errs) in
-  step s (fst r) (map (fun c => STok (fst c)) l) false []
+  step s (fst r) (map (fun c => STok (fst c)) l) false [] [] []
   /\ snd r = errs ++ flat_map (fun c : nat * option exc => match snd c with Some e => [e] | None => [] end) l.
 Proof.
   induction l as [|c q IH]; intros s errs; cbn [fold_left].
@@ -244,7 +339,7 @@ Proof.
 Qed.
 
 Lemma run_fx_cleanups_spec cs s :
-  step s (fst (run_fx_cleanups cs s)) (fx_cleanup_log cs) false []
+  step s (fst (run_fx_cleanups cs s)) (fx_cleanup_log cs) false [] [] []
   /\ snd (run_fx_cleanups cs s) = fx_errs cs.
 Proof.
   unfold run_fx_cleanups, fx_cleanup_log, fx_errs. destruct (run_fx_cleanups_gen (rev cs) s []) as [A B].
@@ -252,7 +347,7 @@ Proof.
 Qed.
 
 Lemma fx_cleanup_spec cs s :
-  step s (fst (fx_cleanup cs s)) (fx_cleanup_log cs) false []
+  step s (fst (fx_cleanup cs s)) (fx_cleanup_log cs) false [] [] []
   /\ snd (fx_cleanup cs s) = fx_cleanup_raise cs.
 Proof.
   unfold fx_cleanup, fx_cleanup_raise. destruct (run_fx_cleanups_spec cs s) as [A B].
@@ -262,7 +357,7 @@ Qed.
 
 Lemma step_push k s :
   (match k return Prop with KRestore _ _ => False | _ => True end) ->
-  step s (push k s) [] false [k].
+  step s (push k s) [] false [k] [] [].
 Proof.
   intros H. constructor; simpl; rewrite ?app_nil_r, ?orb_false_r; try reflexivity.
   destruct k; try reflexivity. contradiction.
@@ -270,19 +365,22 @@ Qed.
 
 Lemma use_fixture_spec fx s :
   snd (use_fixture fx s) = fixture_raise fx
-  /\ exists new, step s (fst (use_fixture fx s)) (act_log (AFixture fx)) false new
+  /\ exists new, step s (fst (use_fixture fx s)) (act_log (AFixture fx)) false new [] (act_events (AFixture fx))
                  /\ entries_of new = act_entries (AFixture fx)
                  /\ stack_size new <= 2.
 Proof.
-  unfold use_fixture, fixture_raise. cbn [act_log act_entries]. unfold fixture_raise.
+  unfold use_fixture, fixture_raise. cbn [act_log act_entries act_events]. unfold fixture_raise.
   destruct (fx_fail fx) as [e|].
   - destruct (fx_old fx).
     + cbn [fst snd]. split; [reflexivity|]. exists []. split; [|split; [reflexivity | simpl; lia]].
-      step_chain (eapply step_trans; [apply step_log | apply quiet_step, quiet_gather]).
+      step_chain (eapply step_trans; [apply step_log | apply dstep_step, ds_gather]).
     + destruct (run_fx_cleanups_spec (fx_cleanups fx) (add_log [LTok (fx_tok fx)] s)) as [A B].
       destruct (run_fx_cleanups _ _) as [s2 errs]. cbn [fst snd] in *. subst errs.
       split; [reflexivity|]. exists []. split; [|split; [reflexivity | simpl; lia]].
-      step_chain (eapply step_trans; [apply step_log|]; eapply step_trans; [exact A | apply quiet_step, quiet_gather]).
+      assert (Hc : cells s2 = cells (add_log [LTok (fx_tok fx)] s)).
+      { destruct A as [_ _ _ _ _ _ _ A8]. apply (f_equal d_cells) in A8. exact A8. }
+      step_chain (eapply step_trans; [apply step_log|]; eapply step_trans;
+                  [exact A | apply dstep_step; unfold fx_source; apply ds_gather_snap; exact Hc]).
   - cbn [fst snd]. split; [reflexivity|]. exists [KGather fx; KFxClean fx].
     split; [|split; [reflexivity | simpl; lia]].
     step_chain (eapply step_trans; [apply step_log|]; eapply step_trans; apply step_push; exact I).
@@ -290,18 +388,18 @@ Qed.
 
 Lemma exec_act_spec a s :
   snd (exec_act a s) = act_raise a
-  /\ exists new, step s (fst (exec_act a s)) (act_log a) (sets_force a) new
+  /\ exists new, step s (fst (exec_act a s)) (act_log a) (sets_force a) new (act_inserts a) (act_events a)
                  /\ entries_of new = match act_raise a with Some _ => [] | None => act_entries a end
                  /\ stack_size new <= act_size a.
 Proof.
-  destruct a as [n loc | loc v | mm | mm | t body | a v | fx | h | | r p | e]; unfold exec_act.
-  - split; [reflexivity|]. exists []. split; [apply quiet_step, quiet_add_detail | split; [reflexivity | simpl; lia]].
+  destruct a as [n loc | loc v | mm | mm | t body | a v | fx | h | | c o | r p | e]; unfold exec_act.
+  - split; [reflexivity|]. exists []. split; [apply dstep_step, ds_user | split; [reflexivity | simpl; lia]].
+  - split; [reflexivity|]. exists []. split; [apply dstep_step, ds_setcell | split; [reflexivity | simpl; lia]].
   - split; [reflexivity|]. exists []. split; [|split; [reflexivity | simpl; lia]].
-    constructor; simpl; rewrite ?app_nil_r, ?orb_false_r; reflexivity.
-  - split; [reflexivity|]. exists []. split; [|split; [reflexivity | simpl; lia]].
-    pose proof (quiet_add_mismatch mm s) as [Q1 Q2 Q3 Q4 Q5 Q6 Q7].
-    constructor; simpl; rewrite ?app_nil_r, ?orb_true_r; congruence.
-  - split; [reflexivity|]. exists []. split; [apply quiet_step, quiet_add_mismatch | split; [reflexivity | simpl; lia]].
+    pose proof (dstep_trans _ _ _ _ _ (ds_mismatch mm s) (ds_stack' (add_mismatch mm s))) as [Q1 Q2 Q3 Q4 Q5 Q6 Q7 Q8].
+    constructor; cbn [log excs stack attrs force uh tr set_force act_log act_inserts act_events sets_force rev app];
+      rewrite ?app_nil_r, ?orb_true_r; try congruence. exact Q8.
+  - split; [reflexivity|]. exists []. split; [apply dstep_step, ds_mismatch | split; [reflexivity | simpl; lia]].
   - split; [reflexivity|]. exists [KUser t body]. split; [apply step_push; exact I|].
     split; [simpl; now rewrite app_nil_r | cbn [stack_size fold_right ksize]; rewrite act_size_cleanup; lia].
   - split; [reflexivity|]. exists [KRestore a (aget a (attrs s))]. split; [|split; [reflexivity | simpl; lia]].
@@ -309,631 +407,38 @@ Proof.
     f_equal. destruct (aget a (attrs s)) eqn:G; [now apply aput_aput_same | now apply adel_aput_fresh].
   - destruct (use_fixture_spec fx s) as [A (new & B & C & D)]. split; [exact A|]. exists new.
     split; [exact B|]. split; [|exact D]. cbn [act_raise]. rewrite C. cbn [act_entries]. now destruct (fixture_raise fx).
-  - split; [reflexivity|]. exists []. split; [|split; [reflexivity | simpl; lia]].
-    constructor; simpl; rewrite ?app_nil_r, ?orb_false_r; reflexivity.
+  - split; [reflexivity|]. exists []. split; [apply dstep_step, ds_onexc | split; [reflexivity | simpl; lia]].
   - split; [reflexivity|]. exists []. split; [|split; [reflexivity | simpl; lia]].
     constructor; simpl; rewrite ?app_nil_r, ?orb_true_r; reflexivity.
-  - destruct p as [e|]; cbn [act_raise].
+  - split; [reflexivity|]. exists []. split; [|split; [reflexivity | simpl; lia]].
+    constructor; simpl; rewrite ?app_nil_r, ?orb_false_r; reflexivity.
+  - destruct p as [e|]; cbn [act_raise act_events].
     + destruct (isinstance e CFail); (split; [reflexivity|]); exists [];
         (split; [|split; [reflexivity | simpl; lia]]).
-      * apply quiet_step. eapply quiet_trans; [apply quiet_add_detail | apply quiet_report_traceback].
-      * apply quiet_step, quiet_add_detail.
-    + split; [reflexivity|]. exists []. split; [apply quiet_step, quiet_add_detail | split; [reflexivity | simpl; lia]].
+      * apply dstep_step. apply (dstep_trans _ _ _ _ _ (ds_reason (Some r) s) (ds_tb _)).
+      * apply dstep_step, ds_reason.
+    + split; [reflexivity|]. exists []. split; [apply dstep_step, ds_reason | split; [reflexivity | simpl; lia]].
   - split; [reflexivity|]. exists []. split; [apply step_refl | split; [reflexivity | simpl; lia]].
 Qed.
 
 Lemma exec_acts_spec l : forall s,
   snd (exec_acts l s) = acts_raise l
   /\ exists new, step s (fst (exec_acts l s)) (acts_log l) (existsb sets_force (executed l)) new
+                      (acts_inserts l) (acts_events l)
                  /\ entries_of new = pending l
                  /\ stack_size new <= acts_size l.
 Proof.
   induction l as [|a r IH]; intros s.
   - simpl. split; [reflexivity|]. exists []. split; [apply step_refl | split; [reflexivity | simpl; lia]].
-  - cbn [exec_acts acts_raise executed pending]. unfold acts_log. cbn [executed flat_map existsb].
+  - cbn [exec_acts acts_raise executed pending]. unfold acts_log, acts_inserts, acts_events.
+    cbn [executed flat_map existsb].
     destruct (exec_act_spec a s) as [A (new & B & C & D)].
     destruct (exec_act a s) as [s1 ra]. cbn [fst snd] in *. subst ra.
     destruct (act_raise a) as [e|].
     + cbn [fst snd]. split; [reflexivity|]. exists new. split; [|split; [exact C | cbn [acts_size fold_right]; lia]].
-      cbn [flat_map existsb]. rewrite app_nil_r, orb_false_r. exact B.
+      cbn [flat_map existsb]. rewrite !app_nil_r, orb_false_r. exact B.
     + destruct (IH s1) as [A' (new' & B' & C' & D')]. split; [exact A'|]. exists (new' ++ new).
       split; [eapply step_trans; [exact B | exact B']|].
       split; [rewrite entries_of_app, C, C'; reflexivity|].
       rewrite stack_size_app. cbn [acts_size fold_right]. fold (acts_size r). lia.
 Qed.
-
-(* ------------------------------------------------------------------ *)
-(* the cleanup machine                                                  *)
-(* ------------------------------------------------------------------ *)
-Definition entries_log (l : list entry) : list lsh := flat_map entry_log l.
-Definition entries_excs (l : list entry) : list exc := flat_map (fun e => caught (entry_raise e)) l.
-Definition entries_force (l : list entry) : bool := existsb entry_forces l.
-
-Lemma entries_excs_app a b : entries_excs (a ++ b) = entries_excs a ++ entries_excs b.
-Proof. apply flat_map_app. Qed.
-Lemma entries_log_app a b : entries_log (a ++ b) = entries_log a ++ entries_log b.
-Proof. apply flat_map_app. Qed.
-Lemma entries_force_app a b : entries_force (a ++ b) = entries_force a || entries_force b.
-Proof. apply existsb_app. Qed.
-
-(* what a piece of the run did to the control part of the state *)
-Record ran (s s' : st) (lg : list lsh) (ex : list exc) (fc : bool) : Prop := {
-  rn_log : map shape (log s') = map shape (log s) ++ lg;
-  rn_excs : excs s' = excs s ++ ex;
-  rn_force : force s' = force s || fc;
-  rn_calls : calls (tr s') = calls (tr s) }.
-
-Lemma ran_refl s : ran s s [] [] false.
-Proof. constructor; rewrite ?app_nil_r, ?orb_false_r; reflexivity. Qed.
-Lemma ran_trans a b c l1 l2 e1 e2 f1 f2 :
-  ran a b l1 e1 f1 -> ran b c l2 e2 f2 -> ran a c (l1 ++ l2) (e1 ++ e2) (f1 || f2).
-Proof.
-  intros [A1 A2 A3 A4] [B1 B2 B3 B4]. constructor.
-  - rewrite B1, A1, app_assoc. reflexivity.
-  - rewrite B2, A2, app_assoc. reflexivity.
-  - rewrite B3, A3, orb_assoc. reflexivity.
-  - congruence.
-Qed.
-Lemma ran_eq s s' lg ex fc lg' ex' fc' :
-  ran s s' lg ex fc -> lg = lg' -> ex = ex' -> fc = fc' -> ran s s' lg' ex' fc'.
-Proof. intros H -> -> ->. exact H. Qed.
-
-Definition raisedb (r : option exc) : bool := match r with Some _ => true | None => false end.
-
-(* _run_user around a step *)
-Lemma run_user_spec s s1 oe lg fc new :
-  step s s1 lg fc new ->
-  let r := run_user (s1, oe) in
-  snd r = raisedb oe
-  /\ ran s (fst r) lg (caught oe) fc
-  /\ stack (fst r) = new ++ stack s
-  /\ undo_all (stack (fst r)) (attrs (fst r)) = undo_all (stack s) (attrs s).
-Proof.
-  intros [S1 S2 S3 S4 S5 S6]. unfold run_user. destruct oe as [e|]; cbn [fst snd caught raisedb].
-  - destruct (got_exception_spec e s1) as (G1 & G2 & G3 & G4 & G5 & G6 & G7).
-    split; [reflexivity|]. split; [constructor; congruence|]. split; congruence.
-  - split; [reflexivity|]. split; [constructor; rewrite ?app_nil_r; congruence|]. split; congruence.
-Qed.
-
-Definition entry_hd (k : cleanup) : entry :=
-  match k with
-  | KUser t b => EUser t b | KRestore a _ => ERestore a | KGather fx => EGather fx | KFxClean fx => EFx fx
-  end.
-Definition k_rest (k : cleanup) : list entry := match k with KUser _ b => pending b | _ => [] end.
-Lemma k_entries_split k : k_entries k = entry_hd k :: k_rest k.
-Proof. destruct k; reflexivity. Qed.
-
-(* an entry of _cleanups being called, the entry already popped *)
-Lemma run_cleanup_spec k s :
-  let r := run_cleanup k s in
-  snd r = entry_raise (entry_hd k)
-  /\ map shape (log (fst r)) = map shape (log s) ++ entry_log (entry_hd k)
-  /\ excs (fst r) = excs s
-  /\ force (fst r) = force s || entry_forces (entry_hd k)
-  /\ calls (tr (fst r)) = calls (tr s)
-  /\ exists new, stack (fst r) = new ++ stack s /\ entries_of new = k_rest k /\ stack_size new < ksize k
-                 /\ undo_all (stack (fst r)) (attrs (fst r)) = undo_all (stack s) (undo1 (attrs s) k).
-Proof.
-  destruct k as [t b | a old | fx | fx]; unfold run_cleanup; cbv zeta.
-  - destruct (exec_acts_spec b (add_log [LTok t] s)) as [A (new & B & C & D)].
-    pose proof (step_trans _ _ _ _ _ _ _ _ _ (step_log s [LTok t]) B) as [S1 S2 S3 S4 S5 S6].
-    cbn [entry_hd entry_raise entry_log entry_forces k_rest ksize undo1].
-    split; [exact A|]. split; [exact S1|]. split; [exact S2|]. split; [exact S3|]. split; [exact S4|].
-    exists new. rewrite app_nil_r in S5. split; [exact S5|]. split; [exact C|]. split; [lia | exact S6].
-  - cbn [entry_hd entry_raise entry_log entry_forces k_rest ksize].
-    destruct old as [v|]; cbn [fst snd]; simpl; rewrite ?orb_false_r, ?map_app;
-      (repeat (split; [reflexivity|])); exists []; repeat split; simpl; lia.
-  - destruct (quiet_gather (fx_source fx) s) as [Q1 Q2 Q3 Q4 Q5 Q6 Q7].
-    cbn [entry_hd entry_raise entry_log entry_forces k_rest ksize undo1 fst snd].
-    rewrite app_nil_r, orb_false_r. split; [reflexivity|]. repeat (split; [congruence|]).
-    exists []. repeat split; simpl; try lia; congruence.
-  - destruct (fx_cleanup_spec (fx_cleanups fx) s) as [[S1 S2 S3 S4 S5 S6] B].
-    cbn [entry_hd entry_raise entry_log entry_forces k_rest ksize undo1].
-    split; [exact B|]. split; [exact S1|]. split; [exact S2|]. split; [exact S3|]. split; [exact S4|].
-    exists []. repeat split; simpl; try lia; assumption.
-Qed.
-
-Lemma stack_size_pos k r : 1 <= stack_size (k :: r).
-Proof. simpl. destruct k; simpl; lia. Qed.
-
-Theorem run_cleanups_spec fuel : forall s,
-  stack_size (stack s) <= fuel ->
-  exists s' failing,
-    run_cleanups fuel s = (s', failing, false)
-    /\ ran s s' (entries_log (entries_of (stack s))) (entries_excs (entries_of (stack s)))
-                (entries_force (entries_of (stack s)))
-    /\ failing = negb (match entries_excs (entries_of (stack s)) with [] => true | _ => false end)
-    /\ stack s' = []
-    /\ attrs s' = undo_all (stack s) (attrs s).
-Proof.
-  induction fuel as [|f IH]; intros s Hsz.
-  - destruct (stack s) as [|k rest] eqn:Est.
-    + exists s, false. simpl. rewrite Est. repeat split; try reflexivity; apply ran_refl.
-    + pose proof (stack_size_pos k rest). lia.
-  - destruct (stack s) as [|k rest] eqn:Est.
-    + exists s, false. simpl. rewrite Est. repeat split; try reflexivity; apply ran_refl.
-    + cbn [run_cleanups]. rewrite Est.
-      pose proof (run_cleanup_spec k (set_stack rest s)) as R. cbv zeta in R.
-      destruct (run_cleanup k (set_stack rest s)) as [s1 oe]. cbn [fst snd] in R.
-      destruct R as (R1 & R2 & R3 & R4 & R5 & new & R6 & R7 & R8 & R9).
-      cbn [log excs force tr stack attrs set_stack] in *.
-      (* run_user by hand, since a restore entry changes vars(scratch) *)
-      assert (U : exists s2, run_user (s1, oe) = (s2, raisedb oe)
-                  /\ ran (set_stack rest s) s2 (entry_log (entry_hd k)) (caught oe) (entry_forces (entry_hd k))
-                  /\ stack s2 = new ++ rest
-                  /\ undo_all (stack s2) (attrs s2) = undo_all rest (undo1 (attrs s) k)).
-      { unfold run_user. destruct oe as [e|]; cbn [raisedb caught].
-        - destruct (got_exception_spec e s1) as (G1 & G2 & G3 & G4 & G5 & G6 & G7).
-          eexists; split; [reflexivity|]. split; [constructor; cbn [log excs force tr set_stack]; congruence|].
-          split; congruence.
-        - eexists; split; [reflexivity|]. split; [constructor; cbn [log excs force tr set_stack]; rewrite ?app_nil_r; congruence|].
-          split; congruence. }
-      destruct U as (s2 & U1 & U2 & U3 & U4). rewrite U1.
-      assert (Hsz2 : stack_size (stack s2) <= f).
-      { rewrite U3, stack_size_app. simpl in Hsz. lia. }
-      destruct (IH s2 Hsz2) as (s' & failing & I1 & I2 & I3 & I4 & I5). rewrite I1.
-      exists s', (raisedb oe || failing). split; [reflexivity|].
-      assert (EE : entries_of (k :: rest) = entry_hd k :: entries_of (stack s2)).
-      { unfold entries_of at 1. cbn [flat_map]. rewrite k_entries_split. rewrite U3, entries_of_app, R7. reflexivity. }
-      rewrite EE. split.
-      { destruct U2 as [A1 A2 A3 A4]. destruct I2 as [B1 B2 B3 B4].
-        cbn [log excs force tr set_stack] in *. constructor.
-        - rewrite B1, A1, <- app_assoc. reflexivity.
-        - rewrite B2, A2, <- app_assoc. unfold entries_excs at 2. cbn [flat_map]. rewrite <- R1. reflexivity.
-        - rewrite B3, A3, <- orb_assoc. reflexivity.
-        - congruence. }
-      split.
-      { rewrite I3. unfold entries_excs at 2. cbn [flat_map]. rewrite <- R1.
-        destruct oe as [e|]; cbn [raisedb caught].
-        - pose proof (flatten_nonempty e). destruct (flatten e); [contradiction | reflexivity].
-        - reflexivity. }
-      split; [exact I4|]. rewrite I5, U4. reflexivity.
-Qed.
-
-(* ------------------------------------------------------------------ *)
-(* stages                                                               *)
-(* ------------------------------------------------------------------ *)
-Lemma run_method_spec m up s :
-  snd (run_method m up s) = match acts_raise (snd m) with
-                            | Some e => Some e
-                            | None => if up then None else Some (Exc CValueError None)
-                            end
-  /\ exists new, step s (fst (run_method m up s)) (stage_log m) (existsb sets_force (executed (snd m))) new
-                 /\ entries_of new = pending (snd m) /\ stack_size new <= acts_size (snd m).
-Proof.
-  unfold run_method. destruct (exec_acts_spec (snd m) (add_log [LTok (fst m)] s)) as [A (new & B & C & D)].
-  pose proof (step_trans _ _ _ _ _ _ _ _ _ (step_log s [LTok (fst m)]) B) as S. rewrite app_nil_r in S.
-  destruct (exec_acts (snd m) (add_log [LTok (fst m)] s)) as [s1 oe]. cbn [fst snd] in *. subst oe.
-  destruct (acts_raise (snd m)); cbn [fst snd]; (split; [reflexivity|]); exists new;
-    (split; [exact S | split; assumption]).
-Qed.
-
-Lemma run_test_method_spec p s :
-  snd (run_test_method p s) = body_raise p
-  /\ exists new, step s (fst (run_test_method p s)) (stage_log (p_body p))
-                      (existsb sets_force (executed (snd (p_body p)))) new
-                 /\ entries_of new = pending (snd (p_body p)) /\ stack_size new <= acts_size (snd (p_body p)).
-Proof.
-  unfold run_test_method, body_raise.
-  destruct (exec_acts_spec (snd (p_body p)) (add_log [LTok (fst (p_body p))] s)) as [A (new & B & C & D)].
-  pose proof (step_trans _ _ _ _ _ _ _ _ _ (step_log s [LTok (fst (p_body p))]) B) as S. rewrite app_nil_r in S.
-  destruct (exec_acts (snd (p_body p)) (add_log [LTok (fst (p_body p))] s)) as [s1 oe]. cbn [fst snd] in *. subst oe.
-  destruct (p_xfail p).
-  - destruct (acts_raise (snd (p_body p))) as [e|].
-    + destruct (isinstance e CException); cbn [fst snd]; (split; [reflexivity|]); exists new;
-        (split; [|split; assumption]); [|exact S].
-      step_chain (eapply step_trans; [exact S | apply quiet_step, quiet_report_traceback]).
-    + cbn [fst snd]. split; [reflexivity|]. exists new. split; [exact S | split; assumption].
-  - split; [reflexivity|]. exists new. split; [exact S | split; assumption].
-Qed.
-
-Lemma caught_nil r : caught r = [] <-> raisedb r = false.
-Proof.
-  destruct r as [e|]; simpl; split; intro H; try reflexivity; try discriminate.
-  exfalso; exact (flatten_nonempty e H).
-Qed.
-Definition is_nil {A} (l : list A) : bool := match l with [] => true | _ => false end.
-Lemma is_nil_app {A} (a b : list A) : is_nil (a ++ b) = is_nil a && is_nil b.
-Proof. destruct a; reflexivity. Qed.
-Lemma raisedb_caught r : raisedb r = negb (is_nil (caught r)).
-Proof.
-  destruct r as [e|]; simpl; [|reflexivity].
-  pose proof (flatten_nonempty e). destruct (flatten e); [contradiction | reflexivity].
-Qed.
-
-
-(* the exceptions a run of [p] collects when force_failure is [f0] at its start *)
-Definition collected (p : prog) (f0 : bool) : list exc :=
-  raised_by_user p ++ (if setup_returns p && (f0 || forced p) then [Exc CFail None] else []).
-
-(* _run_core on a program that is not skip-decorated *)
-Theorem run_core_spec p fuel s :
-  p_skip p = None -> stack s = [] -> prog_size p <= fuel ->
-  exists s',
-    run_core p fuel s = (s', false)
-    /\ map shape (log s') = map shape (log s) ++ expected_log p
-    /\ excs s' = excs s ++ collected p (force s)
-    /\ force s' = force s || forced p
-    /\ stack s' = [] /\ attrs s' = attrs s
-    /\ (if is_nil (collected p (force s))
-        then exists d, calls (tr s') = calls (tr s) ++ [TOut OSuccess d]
-        else calls (tr s') = calls (tr s)).
-Proof.
-  intros Hskip Hst Hfuel. unfold run_core, collected, expected_log, raised_by_user, forced, cleanup_entries, skipped.
-  rewrite Hskip. unfold prog_size in Hfuel.
-  (* setUp *)
-  destruct (run_method_spec (p_setup p) (p_up_setup p) s) as [A1 (n1 & B1 & C1 & D1)].
-  fold (setup_raise p) in A1.
-  destruct (run_method (p_setup p) (p_up_setup p) s) as [s1' oe1]. cbn [fst snd] in A1, B1. subst oe1.
-  pose proof (run_user_spec _ _ (setup_raise p) _ _ _ B1) as U1. cbv zeta in U1.
-  destruct (run_user (s1', setup_raise p)) as [s1 f1]. cbn [fst snd] in U1.
-  destruct U1 as (F1 & R1 & K1 & T1). subst f1. rewrite Hst, app_nil_r in K1. rewrite Hst in T1. cbn [undo_all fold_left] in T1.
-  unfold setup_returns. destruct (setup_raise p) as [e1|] eqn:Es; cbn [raisedb].
-  - (* setUp failed: only the cleanups *)
-    assert (Hsz : stack_size (stack s1) <= fuel) by (rewrite K1; lia).
-    destruct (run_cleanups_spec fuel s1 Hsz) as (s2 & failing & I1 & I2 & I3 & I4 & I5). rewrite I1.
-    exists s2. split; [reflexivity|]. rewrite K1, C1 in *.
-    destruct R1 as [A1 A2 A3 A4]. destruct I2 as [B1' B2 B3 B4].
-    cbn [andb]. rewrite !app_nil_r.
-    split; [rewrite B1', A1, <- app_assoc; reflexivity|].
-    split; [rewrite B2, A2, <- app_assoc; reflexivity|].
-    split; [rewrite B3, A3; cbn [andb]; rewrite orb_false_r, <- orb_assoc; reflexivity|].
-    split; [exact I4|]. split; [rewrite I5; exact T1|].
-    rewrite is_nil_app. cbn [caught]. pose proof (flatten_nonempty e1). destruct (flatten e1); [contradiction|].
-    cbn [is_nil andb]. congruence.
-  - (* setUp returned *)
-    destruct (run_test_method_spec p s1) as [A2 (n2 & B2 & C2 & D2)].
-    destruct (run_test_method p s1) as [s2' oe2]. cbn [fst snd] in A2, B2. subst oe2.
-    pose proof (run_user_spec _ _ (body_raise p) _ _ _ B2) as U2. cbv zeta in U2.
-    destruct (run_user (s2', body_raise p)) as [s2 f2]. cbn [fst snd] in U2.
-    destruct U2 as (F2 & R2 & K2 & T2). subst f2.
-    destruct (run_method_spec (p_teardown p) (p_up_teardown p) s2) as [A3 (n3 & B3 & C3 & D3)].
-    fold (teardown_raise p) in A3.
-    destruct (run_method (p_teardown p) (p_up_teardown p) s2) as [s3' oe3]. cbn [fst snd] in A3, B3. subst oe3.
-    pose proof (run_user_spec _ _ (teardown_raise p) _ _ _ B3) as U3. cbv zeta in U3.
-    destruct (run_user (s3', teardown_raise p)) as [s3 f3]. cbn [fst snd] in U3.
-    destruct U3 as (F3 & R3 & K3 & T3). subst f3.
-    assert (K3' : stack s3 = n3 ++ n2 ++ n1) by (rewrite K3, K2, K1; reflexivity).
-    assert (Hsz : stack_size (stack s3) <= fuel) by (rewrite K3', !stack_size_app; lia).
-    destruct (run_cleanups_spec fuel s3 Hsz) as (s4 & failing & I1 & I2 & I3 & I4 & I5). rewrite I1.
-    rewrite K3', !entries_of_app, C1, C2, C3 in I2, I3.
-    set (E := pending (snd (p_teardown p)) ++ pending (snd (p_body p)) ++ pending (snd (p_setup p))) in *.
-    destruct R1 as [a1 a2 a3 a4]. destruct R2 as [b1 b2 b3 b4]. destruct R3 as [c1 c2 c3 c4].
-    destruct I2 as [d1 d2 d3 d4]. cbn [caught] in a2. rewrite app_nil_r in a2.
-    assert (F4 : force s4 = force s || (existsb sets_force (executed (snd (p_setup p)))
-                   || (existsb sets_force (executed (snd (p_body p))) || existsb sets_force (executed (snd (p_teardown p))))
-                   || existsb entry_forces E)).
-    { rewrite d3, c3, b3, a3. unfold entries_force. rewrite <- !orb_assoc. reflexivity. }
-    assert (X4 : excs s4 = excs s ++ caught (body_raise p) ++ caught (teardown_raise p) ++ entries_excs E).
-    { rewrite d2, c2, b2, a2, <- !app_assoc. reflexivity. }
-    assert (L4 : map shape (log s4) = map shape (log s) ++ stage_log (p_setup p) ++
-                   (stage_log (p_body p) ++ stage_log (p_teardown p)) ++ entries_log E).
-    { rewrite d1, c1, b1, a1, <- !app_assoc. reflexivity. }
-    assert (A4 : attrs s4 = attrs s) by (rewrite I5, T3, T2; exact T1).
-    assert (C4 : calls (tr s4) = calls (tr s)) by congruence.
-    cbn [andb caught app]. fold (entries_excs E). fold (entries_log E).
-    set (forcedp := existsb sets_force (executed (snd (p_setup p)))
-                    || (existsb sets_force (executed (snd (p_body p)))
-                        || existsb sets_force (executed (snd (p_teardown p))))
-                    || existsb entry_forces E) in *.
-    change (failing = negb (is_nil (entries_excs E))) in I3.
-    rewrite F4. subst failing. rewrite !raisedb_caught.
-    destruct (force s || forcedp) eqn:Ef.
-    + (* the forced failure *)
-      destruct (got_exception_spec (Exc CFail None) s4) as (G1 & G2 & G3 & G4 & G5 & G6 & G7).
-      rewrite !orb_true_r. eexists. split; [reflexivity|].
-      split; [rewrite G1, L4; reflexivity|].
-      split; [rewrite G2, X4, <- !app_assoc; reflexivity|].
-      split; [rewrite G5; exact F4|].
-      split; [congruence|]. split; [congruence|].
-      rewrite !is_nil_app. cbn [is_nil]. rewrite !andb_false_r. congruence.
-    + rewrite orb_false_r.
-      destruct (is_nil (caught (body_raise p))) eqn:N2, (is_nil (caught (teardown_raise p))) eqn:N3,
-               (is_nil (entries_excs E)) eqn:N4; cbn [negb orb];
-        (eexists; split; [reflexivity|]);
-        (split; [first [exact L4 | cbn [log add_tr set_tr]; exact L4]|]);
-        (split; [cbn [excs add_tr set_tr]; rewrite X4, app_nil_r, <- !app_assoc; reflexivity|]);
-        (split; [cbn [force add_tr set_tr]; exact F4|]);
-        (split; [cbn [stack add_tr set_tr]; exact I4|]);
-        (split; [cbn [attrs add_tr set_tr]; exact A4|]);
-        rewrite app_nil_r, !is_nil_app, N2, N3, N4; cbn [andb];
-        try exact C4.
-      eexists. cbn [tr add_tr set_tr]. rewrite calls_app, C4. reflexivity.
-Qed.
-
-(* ------------------------------------------------------------------ *)
-(* the whole run                                                        *)
-(* ------------------------------------------------------------------ *)
-(* the exceptions collected by a run that starts with force_failure = f0 *)
-Definition collected_run (p : prog) (f0 : bool) : list exc := if skipped p then [] else collected p f0.
-
-(* which outcome is reported for the collected exceptions, and what propagates *)
-Definition decide (hs : list handler) (X : list exc) : option outcome * option exc :=
-  match choose hs X with
-  | None => (Some OSuccess, None)
-  | Some e => match lookup hs e with
-              | Some h => (h_out h, None)
-              | None => (last_resort, Some e)
-              end
-  end.
-Definition verdict (p : prog) (f0 : bool) : option outcome * option exc :=
-  if skipped p then (Some OSkip, None) else decide (handlers p) (collected p f0).
-
-Lemma choose_nil hs : choose hs [] = None.
-Proof. reflexivity. Qed.
-Lemma choose_some hs X : X <> [] -> exists e, choose hs X = Some e.
-Proof.
-  intros H. unfold choose. destruct (rev X) as [|l r] eqn:E.
-  - apply (f_equal (@rev exc)) in E. rewrite rev_involutive in E. simpl in E. contradiction.
-  - destruct (find _ _); eexists; reflexivity.
-Qed.
-
-Theorem run_from_spec p s :
-  exists s' d,
-    run_from p s = (s', snd (verdict p (force s)), false)
-    /\ map shape (log s') = map shape (log s) ++ expected_log p
-    /\ excs s' = collected_run p (force s)
-    /\ force s' = force s || (negb (skipped p) && forced p)
-    /\ stack s' = [] /\ attrs s' = attrs s
-    /\ calls (tr s') = calls (tr s) ++ TStart :: match fst (verdict p (force s)) with
-                                                 | Some o => [TOut o d]
-                                                 | None => []
-                                                 end ++ [TStop].
-Proof.
-  unfold run_from, run_prepared, verdict, collected_run, expected_log, skipped.
-  destruct (p_skip p) as [r|] eqn:Hskip; fold (skipped p); fold (expected_log p).
-  - (* skip-decorated: nothing runs *)
-    unfold run_core. rewrite Hskip. cbn [excs add_tr set_tr set_excs tr reset set_tbgen set_dets set_stack choose rev].
-    eexists. eexists. split; [reflexivity|].
-    cbn [log excs force stack attrs tr add_tr set_tr set_excs reset set_tbgen set_dets set_stack fst snd negb andb].
-    rewrite app_nil_r, orb_false_r, !calls_app. cbn [calls filter is_call app]. rewrite <- !app_assoc.
-    repeat split; reflexivity.
-  - set (s0 := set_excs [] (add_tr [TStart] (reset s))).
-    assert (H0 : stack s0 = []) by reflexivity.
-    destruct (run_core_spec p (S (prog_size p)) s0 Hskip H0 (Nat.le_succ_diag_r _))
-      as (s1 & R & L1 & X1 & F1 & K1 & A1 & C1).
-    unfold expected_log, skipped in L1. rewrite Hskip in L1.
-    rewrite R. subst s0. cbn [log excs force stack attrs tr add_tr set_tr set_excs reset set_tbgen set_dets set_stack app] in *.
-    cbn [negb andb]. rewrite X1. set (X := collected p (force s)) in *.
-    assert (C0 : calls (tr s ++ [TStart]) = calls (tr s) ++ [TStart]) by (rewrite calls_app; reflexivity).
-    rewrite C0 in C1. unfold decide.
-    destruct X as [|x0 xr] eqn:EX.
-    + (* nothing was caught: the success already reported *)
-      cbn [is_nil] in C1. destruct C1 as [d C1]. rewrite choose_nil.
-      exists (add_tr [TStop] s1), d. split; [reflexivity|].
-      cbn [log excs force stack attrs tr add_tr set_tr fst snd].
-      repeat (split; [assumption|]). rewrite calls_app, C1, <- !app_assoc. reflexivity.
-    + cbn [is_nil] in C1.
-      destruct (choose_some (handlers p) (x0 :: xr)) as [e He]; [discriminate|]. rewrite He.
-      destruct (lookup (handlers p) e) as [h|] eqn:Hl; cbn [fst snd].
-      * (* a handler claims it *)
-        unfold call_handler.
-        set (s1' := if h_reason h then add_detail n_reason (CReason (arg_of e)) s1 else s1).
-        assert (Q : quiet s1 s1') by (subst s1'; destruct (h_reason h); [apply quiet_add_detail | apply quiet_refl]).
-        destruct Q as [Q1 Q2 Q3 Q4 Q5 Q6 Q7].
-        destruct (h_out h) as [o|].
-        -- eexists. exists (current_details s1'). split; [reflexivity|].
-           cbn [log excs force stack attrs tr add_tr set_tr]. rewrite Q1, Q2, Q3, Q4, Q5, Q7.
-           repeat (split; [assumption|]). rewrite !calls_app, C1, <- !app_assoc. reflexivity.
-        -- eexists. exists []. split; [reflexivity|].
-           cbn [log excs force stack attrs tr add_tr set_tr]. rewrite Q1, Q2, Q3, Q4, Q5, Q7.
-           repeat (split; [assumption|]). rewrite !calls_app, C1, <- !app_assoc. reflexivity.
-      * (* no handler claims it: last resort, then it propagates *)
-        destruct last_resort as [o|].
-        -- eexists. exists (current_details s1). split; [reflexivity|].
-           cbn [log excs force stack attrs tr add_tr set_tr].
-           repeat (split; [assumption|]). rewrite !calls_app, C1, <- !app_assoc. reflexivity.
-        -- eexists. exists []. split; [reflexivity|].
-           cbn [log excs force stack attrs tr add_tr set_tr].
-           repeat (split; [assumption|]). rewrite !calls_app, C1, <- !app_assoc. reflexivity.
-Qed.
-
-(* ------------------------------------------------------------------ *)
-(* classes, the handler table, the choice of the reported exception   *)
-(* ------------------------------------------------------------------ *)
-(* ---------- decidable equalities ---------- *)
-Lemma cls_eqb_spec a : forall b, cls_eqb a b = true <-> a = b.
-Proof.
-  induction a as [| | | | | | | | | | | | |p IH k]; intros b; destruct b; simpl; split; intro H;
-    try reflexivity; try discriminate.
-  - apply andb_true_iff in H as [H1 H2]. apply IH in H1. apply Nat.eqb_eq in H2. congruence.
-  - injection H as -> ->. apply andb_true_iff; split; [apply IH; reflexivity | apply Nat.eqb_refl].
-Qed.
-Lemma cls_eqb_refl a : cls_eqb a a = true.
-Proof. apply cls_eqb_spec; reflexivity. Qed.
-
-Lemma outcome_eqb_spec a b : outcome_eqb a b = true <-> a = b.
-Proof. destruct a, b; simpl; split; intro H; try reflexivity; discriminate. Qed.
-(* ---------- the class order ---------- *)
-Lemma subclass_in c d : subclass c d = true <-> In d (supers c).
-Proof.
-  unfold subclass. rewrite existsb_exists. split.
-  - intros (x & Hx & E). apply cls_eqb_spec in E. subst. exact Hx.
-  - intros H. exists d. split; [exact H | apply cls_eqb_refl].
-Qed.
-Lemma supers_incl c : forall d, In d (supers c) -> incl (supers d) (supers c).
-Proof.
-  induction c as [| | | | | | | | | | | | |p IH k]; intros d H;
-    try (simpl in H; repeat (destruct H as [H|H]; [subst d; intros x Hx; simpl in *; tauto|]); contradiction).
-  cbn [supers] in *. destruct H as [H|H].
-  - subst d. cbn [supers]. apply incl_refl.
-  - apply incl_tl. apply IH. exact H.
-Qed.
-Lemma subclass_trans a b c : subclass a b = true -> subclass b c = true -> subclass a c = true.
-Proof. rewrite !subclass_in. intros H1 H2. exact (supers_incl a b H1 c H2). Qed.
-Lemma subclass_refl a : subclass a a = true.
-Proof. apply subclass_in. destruct a; simpl; auto. Qed.
-
-(* ---------- facts about the generated handler table (by computation) ---------- *)
-Lemma table_outcomes : forallb (fun h => match h_out h with Some _ => true | None => false end) generated_handlers = true.
-Proof. vm_compute. reflexivity. Qed.
-Lemma table_last_resort : last_resort = Some OErr.
-Proof. vm_compute. reflexivity. Qed.
-Lemma table_within_Exception : forallb (fun h => subclass (h_cls h) CException) generated_handlers = true.
-Proof. vm_compute. reflexivity. Qed.
-Lemma table_catch_all_last :
-  match rev generated_handlers with h :: _ => cls_eqb (h_cls h) CException | [] => false end = true.
-Proof. vm_compute. reflexivity. Qed.
-Lemma table_complete : run_passes_table = true /\ length generated_handlers = length exception_handlers.
-Proof. vm_compute. split; reflexivity. Qed.
-
-Lemma catch_all_in : exists h, In h generated_handlers /\ h_cls h = CException.
-Proof.
-  pose proof table_catch_all_last as H. destruct (rev generated_handlers) as [|h r] eqn:E; [discriminate|].
-  exists h. split; [|apply cls_eqb_spec; exact H].
-  apply in_rev. rewrite E. left; reflexivity.
-Qed.
-
-Lemma handlers_report p h : In h (handlers p) -> exists o, h_out h = Some o.
-Proof.
-  unfold handlers. intros Hin. apply in_app_or in Hin. destruct Hin as [Hin|Hin].
-  - apply in_map_iff in Hin. destruct Hin as (co & <- & _). eexists; reflexivity.
-  - pose proof table_outcomes as T. rewrite forallb_forall in T. specialize (T h Hin).
-    destruct (h_out h); [eexists; reflexivity | discriminate].
-Qed.
-
-(* ---------- choosing the exception to report ---------- *)
-Lemma lookup_none hs e : lookup hs e = None <-> claims hs e = false.
-Proof.
-  unfold lookup, claims. induction hs as [|h r IH]; simpl; [tauto|].
-  destruct (isinstance e (h_cls h)); simpl; [split; discriminate | exact IH].
-Qed.
-Lemma lookup_in hs e h : lookup hs e = Some h -> In h hs.
-Proof. unfold lookup. intros H. apply find_some in H. tauto. Qed.
-
-Lemma find_app {A} (f : A -> bool) a b :
-  find f (a ++ b) = match find f a with Some x => Some x | None => find f b end.
-Proof. induction a as [|x r IH]; simpl; [reflexivity|]. destruct (f x); [reflexivity | exact IH]. Qed.
-
-Lemma find_ext' {A} (f g : A -> bool) l : (forall x, f x = g x) -> find f l = find g l.
-Proof. intros H. induction l as [|x r IH]; simpl; [reflexivity|]. rewrite H, IH. reflexivity. Qed.
-
-Lemma choose_spec hs X :
-  X <> [] ->
-  choose hs X = match find (fun e => negb (claims hs e)) X with
-                | Some e => Some e
-                | None => Some (last X (Exc CFail None))
-                end.
-Proof.
-  intros HX. unfold choose.
-  destruct (exists_last HX) as (front & lst & ->).
-  rewrite rev_unit, removelast_last, find_app, last_last. simpl.
-  destruct (find _ front); [reflexivity|]. destruct (negb (claims hs lst)); reflexivity.
-Qed.
-
-(* the verdict when something unclaimed was caught / when everything caught is claimed *)
-Lemma decide_unclaimed hs X e :
-  find (fun e => negb (claims hs e)) X = Some e -> decide hs X = (last_resort, Some e).
-Proof.
-  intros F. unfold decide. assert (HX : X <> []) by (intro; subst; discriminate).
-  rewrite (choose_spec hs X HX), F. apply find_some in F. destruct F as [_ F].
-  apply negb_true_iff in F. apply lookup_none in F. rewrite F. reflexivity.
-Qed.
-Lemma decide_claimed hs X :
-  X <> [] -> find (fun e => negb (claims hs e)) X = None ->
-  exists h, lookup hs (last X (Exc CFail None)) = Some h /\ decide hs X = (h_out h, None).
-Proof.
-  intros HX F. unfold decide. rewrite (choose_spec hs X HX), F.
-  assert (C : claims hs (last X (Exc CFail None)) = true).
-  { pose proof (find_none _ _ F (last X (Exc CFail None))) as N.
-    destruct (exists_last HX) as (front & lst & ->). rewrite last_last in *.
-    assert (I : In lst (front ++ [lst])) by (apply in_or_app; right; left; reflexivity).
-    specialize (N I). now apply negb_false_iff in N. }
-  destruct (lookup hs (last X (Exc CFail None))) as [h|] eqn:L.
-  - exists h. split; reflexivity.
-  - apply lookup_none in L. congruence.
-Qed.
-
-Lemma collected_run_raised p : collected_run p false = raised p.
-Proof.
-  unfold collected_run, raised, forced_failure, collected. destruct (skipped p) eqn:S; simpl.
-  - unfold raised_by_user. rewrite S. reflexivity.
-  - reflexivity.
-Qed.
-
-(* the outcome a run reports, for every program whose inserted handlers are for Exception-derived classes *)
-Lemma verdict_outcome p f0 :
-  exists o, fst (verdict p f0) = Some o.
-Proof.
-  unfold verdict. destruct (skipped p); [eexists; reflexivity|].
-  unfold decide. destruct (choose (handlers p) (collected p f0)) as [e|]; [|eexists; reflexivity].
-  destruct (lookup (handlers p) e) as [h|] eqn:L; cbn [fst].
-  - apply lookup_in in L. exact (handlers_report p h L).
-  - rewrite table_last_resort. eexists; reflexivity.
-Qed.
-
-
-(* ---------- the handler table implements the standard mapping ---------- *)
-Lemma table_not_sub :
-  forallb (fun h => match h_cls h with CSub _ _ => false | _ => true end) generated_handlers = true.
-Proof. vm_compute. reflexivity. Qed.
-
-Definition table_outcome (c : cls) : option outcome :=
-  match find (fun h => subclass c (h_cls h)) generated_handlers with
-  | Some h => h_out h
-  | None => last_resort
-  end.
-
-Lemma find_ext_in {A} (f g : A -> bool) l : (forall x, In x l -> f x = g x) -> find f l = find g l.
-Proof.
-  induction l as [|x r IH]; intros H; simpl; [reflexivity|].
-  rewrite (H x (or_introl eq_refl)), IH; [reflexivity|]. intros y Hy. apply H. right; exact Hy.
-Qed.
-
-Lemma subclass_sub p k d : subclass (CSub p k) d = cls_eqb d (CSub p k) || subclass p d.
-Proof. reflexivity. Qed.
-
-Lemma table_outcome_spec c : table_outcome c = Some (standard_outcome c).
-Proof.
-  induction c as [| | | | | | | | | | | | |p IH k]; try (vm_compute; reflexivity).
-  assert (T : table_outcome (CSub p k) = table_outcome p).
-  { unfold table_outcome. erewrite find_ext_in; [reflexivity|]. intros h Hin. cbv beta.
-    rewrite subclass_sub. pose proof table_not_sub as N. rewrite forallb_forall in N. specialize (N h Hin).
-    destruct (h_cls h); try discriminate; reflexivity. }
-  rewrite T, IH. unfold standard_outcome. rewrite !subclass_sub. reflexivity.
-Qed.
-
-Lemma find_map {A B} (f : B -> bool) (g : A -> B) l : find f (map g l) = option_map g (find (fun a => f (g a)) l).
-Proof. induction l as [|x r IH]; simpl; [reflexivity|]. destruct (f (g x)); [reflexivity | exact IH]. Qed.
-
-(* what the handler list does with an exception is what the statement says it stands for *)
-Lemma lookup_handlers p e :
-  match lookup (handlers p) e with Some h => h_out h | None => last_resort end = Some (outcome_of p e).
-Proof.
-  unfold lookup, handlers, outcome_of, user_claim. rewrite find_app, find_map. cbn [user_handler h_cls].
-  destruct (find (fun a => isinstance e (fst a)) (p_handlers p)) as [co|]; cbn [option_map]; [reflexivity|].
-  exact (table_outcome_spec (cls_of e)).
-Qed.
-
-Lemma existsb_find {A} (f : A -> bool) l : existsb f l = match find f l with Some _ => true | None => false end.
-Proof. induction l as [|x r IH]; simpl; [reflexivity|]. destruct (f x); [reflexivity | exact IH]. Qed.
-
-Lemma generated_claims e : existsb (fun h => isinstance e (h_cls h)) generated_handlers = isinstance e CException.
-Proof.
-  apply eq_true_iff_eq. rewrite existsb_exists. split.
-  - intros (h & Hin & Hh). pose proof table_within_Exception as T. rewrite forallb_forall in T.
-    eapply subclass_trans; [exact Hh | exact (T h Hin)].
-  - intros H. destruct catch_all_in as (h & Hin & Hc). exists h. split; [exact Hin|]. rewrite Hc. exact H.
-Qed.
-
-Lemma claims_handlers p e : claims (handlers p) e = claimed p e.
-Proof.
-  unfold claims, handlers, claimed, user_claim. rewrite existsb_app, generated_claims, existsb_find, find_map.
-  cbn [user_handler h_cls]. destruct (find (fun a => isinstance e (fst a)) (p_handlers p)); reflexivity.
-Qed.
-
-(* the bracket, at the level of the model's trace: the calls on the result are startTest, one
-   outcome, stopTest; no fuel problem; the cleanup stack is empty *)
-Theorem run_bracket p a0 :
-  exists s o d,
-    run p a0 = (s, snd (verdict p false), false)
-    /\ fst (verdict p false) = Some o
-    /\ calls (tr s) = [TStart; TOut o d; TStop]
-    /\ map shape (log s) = expected_log p
-    /\ stack s = [].
-Proof.
-  unfold run. destruct (run_from_spec p (init a0)) as (s & d & R & L & X & F & K & A & C).
-  destruct (verdict_outcome p false) as [o Ho]. exists s, o, d.
-  cbn [force init log tr] in *. rewrite Ho in C. repeat split; assumption.
-Qed.
-
